@@ -263,10 +263,14 @@ def oracle(case, obs):
     # sleeps
     bmax = Fraction(pol.get("backoff_max", 120))
     ras = [Fraction(a["recv"][2]) for a in case["script"][:n] if a["recv"][0] == "resp" and a["recv"][2] is not None]
+    # Retry-After is the server's say only on 413 / 429 / 503
+    ras_ok = [Fraction(a["recv"][2]) for a in case["script"][:n] if a["recv"][0] == "resp" and a["recv"][2] is not None and a["recv"][1] in (413, 429, 503)]
     for s in sleeps:
         v = Fraction(s[0][1] * (1 if s[0][0] == 0 else -1), s[1])
         if v < 0:
             return "negative sleep"
+        if v > bmax and v in ras and v not in ras_ok:
+            return "sleep %s is the Retry-After of a status other than 413/429/503 and exceeds backoff_max" % v
         if v > bmax and v not in ras:
             return "sleep %s exceeds backoff_max and is no Retry-After value" % v
         if v in ras and v > bmax and not pol.get("respect", True):
@@ -287,6 +291,8 @@ def oracle(case, obs):
 
 def signature(case, obs, msg):
     m = msg or ""
+    if "is the Retry-After of a status other than 413/429/503" in m:
+        return {"kind": "retry-after-honoured-for-other-status"}
     sig = {"mode": case["mode"], "msg": m[:50]}
     n = len(obs[0]) if obs else 0
     if "read error" in m or "after read errors" in m:
@@ -334,6 +340,7 @@ OUTCOMES = [
     {"connect": "ok", "send": "ok", "recv": ["resp", 429, 0, True]},
     {"connect": "ok", "send": "ok", "recv": ["resp", 413, 200, False]},
     {"connect": "ok", "send": "ok", "recv": ["resp", 500, 5, True]},
+    {"connect": "ok", "send": "ok", "recv": ["resp", 500, 300, True]},
 ]
 OK200 = {"connect": "ok", "send": "ok", "recv": ["resp", 200, None, True]}
 COUNTS = [None, 0, 1, 2]
